@@ -117,6 +117,45 @@ pub fn scaling_shapes() -> Vec<Baseline> {
             out.push(Baseline { name: format!("shape:scale:tracks{}:moofs{}:{}", k, mf, if with_traf { "one_traf_each" } else { "no_traf" }), bytes: serialize(&all).0, init: None, pairs: false });
         }
     }
+    // (c) nested malformed chains in front of a shared tail: d meta boxes, each declared to reach the end of its parent,
+    // each holding an item list (declared to reach the tail) whose first item has size 0, the next meta box being the
+    // content of that list; behind the chain k empty free boxes and a handler box.  A reader stops at the first
+    // malformed item (linear); one that carries on after a failed child re-walks the tail once per level.
+    for (d, k) in [(290usize, 1020usize), (1160, 4080)] {
+        for in_udta in [true, false] {
+            let mut tail: Vec<u8> = vec![];
+            for _ in 0..k {
+                tail.extend_from_slice(&[0, 0, 0, 8, b'f', b'r', b'e', b'e']);
+            }
+            let h = serialize(&[hdlr(0, 0, b"mdir", "")]).0;
+            tail.extend_from_slice(&h);
+            let chain_len = 28 * d;
+            let total = chain_len + tail.len();
+            let mut v: Vec<u8> = Vec::with_capacity(total);
+            for i in 0..d {
+                let p = 28 * i;
+                v.extend_from_slice(&((total - p) as u32).to_be_bytes());
+                v.extend_from_slice(b"meta");
+                v.extend_from_slice(&[0, 0, 0, 0]);
+                v.extend_from_slice(&((chain_len - (p + 12)) as u32).to_be_bytes());
+                v.extend_from_slice(b"ilst");
+                v.extend_from_slice(&[0, 0, 0, 0, 0xa9, b'n', b'a', b'm']);
+            }
+            v.extend_from_slice(&tail);
+            let t = LTrack::simple(1, Codec::Avc, 1000, vec![LSample { size: 1, delta: 10, cts: 0, sync: true }], vec![1]);
+            let mut m = LMovie::new(1000, vec![t]);
+            m.moov_extra = if in_udta {
+                vec![Node::leaf(b"udta", v)]
+            } else {
+                // the same chain directly in moov: the first meta box of the chain is a child of moov; its declared size
+                // covers the whole chain and tail
+                let first_size = total;
+                let payload = v[8..first_size].to_vec();
+                vec![Node::leaf(b"meta", payload)]
+            };
+            out.push(Baseline { name: format!("shape:scale:nested_malformed_meta_chain:{}x{}:{}", d, k, if in_udta { "in_udta" } else { "in_moov" }), bytes: encode(&m).0, init: None, pairs: false });
+        }
+    }
     // (b) K tracks whose decoder configuration record declares a first parameter set of 65535 bytes (and further ones)
     // although the box ends right after the length field; behind the movie header a filler of 0x01 bytes (every
     // length read there is 0x0101).  hvcC: N parameter sets; avcC: 31 + 1.
